@@ -182,6 +182,7 @@ def one_sequence(ctx, rng, memo):
 
 def shard(ctx):
     rng = ctx.rng
+    rp.IDENTITY_WRAP = 0.03     # leaves and compound nodes spelled through an identity-like notation (definition = bare metavariable)
     track.install()
     route(ctx)
     n = ctx.scale(12000, 160000)
